@@ -12,7 +12,7 @@ use crate::{
         decimal::{
             GreaterEqualZeroDecimal, LessEqualZeroDecimal, NegDecimal, PosDecimal,
         },
-        math::c_maybe_round_to_effective_cent,
+        math::maybe_round_to_effective_cent,
     },
 };
 
@@ -70,9 +70,12 @@ fn get_delta_superficial_loss_info(
     let m_sfl = get_superficial_loss_ratio(idx, txs, ptf_statuses)?;
 
     let calculated_sfl_amount: LessEqualZeroDecimal = match &m_sfl {
-        Some(sfl) => LessEqualZeroDecimal::from(c_maybe_round_to_effective_cent(
-            cap_loss.mul_pos(sfl.sfl_ratio.to_posdecimal()),
-        )),
+        // The product is negative, but it may round to zero effective cents
+        // (which is not a NegDecimal). The rounded value is always <= 0.
+        Some(sfl) => LessEqualZeroDecimal::try_from(maybe_round_to_effective_cent(
+            *cap_loss.mul_pos(sfl.sfl_ratio.to_posdecimal()),
+        ))
+        .unwrap(),
         None => LessEqualZeroDecimal::zero(),
     };
 
@@ -139,7 +142,14 @@ fn get_delta_superficial_loss_info(
 
         // We don't need calculated_sfl_amount to be a LessEqualZeroDecimal anymore
         let calculated_sfl_amount =
-            NegDecimal::try_from(*calculated_sfl_amount).unwrap();
+            match NegDecimal::try_from(*calculated_sfl_amount) {
+                Ok(v) => v,
+                Err(_) => {
+                    // The superficial loss rounds to zero effective cents.
+                    // There is nothing to deny or to carry over.
+                    return Ok(None);
+                }
+            };
         let potentially_over_applied_sfl =
             sfl.fewer_remaining_shares_than_sfl_shares;
 
